@@ -41,4 +41,64 @@ inductive Explained (C : Cfg V Mask U) (init : V) : List (Req Mask U) → V → 
   | resp (rs : List (Req Mask U)) (name : String) (u : U) (v : V) (rest : List (Req Mask U)) :
       C.apply (run C ⟨init, []⟩ rs).cur u = .ok v → Explained C init (rs ++ .update name u :: rest) v
 
+/-- the values the register holds along a run: before it and after every request -/
+def vals (C : Cfg V Mask U) : Srv V Mask → List (Req Mask U) → List V
+  | s, [] => [s.cur]
+  | s, r :: rs => s.cur :: vals C (step C s r).1 rs
+
+/-- a message on a stream is accounted for: it was there before, or it is the stream's view of a value in `vs` under the stream's name -/
+def Accounted (C : Cfg V Mask U) (old : List (Stream V Mask)) (vs : List V) (st : Stream V Mask) (x : V × String) : Prop :=
+  (∃ so, so ∈ old ∧ x ∈ so.out) ∨ (x.2 = st.name ∧ ∃ v, v ∈ vs ∧ x.1 = view C st.mask v)
+
+theorem push_accounted (C : Cfg V Mask U) (v : V) (st : Stream V Mask) (x : V × String) (hx : x ∈ (push C v st).out) :
+    x ∈ st.out ∨ x = (view C st.mask v, st.name) := by
+  rcases push_out C v st with h | h
+  · rw [h] at hx; exact Or.inl hx
+  · rw [h] at hx
+    rcases List.mem_append.mp hx with hx | hx
+    · exact Or.inl hx
+    · simp at hx; exact Or.inr hx
+
+/-- one step: every message of every stream afterwards was on the same-named/masked stream before, or is the view of the new register value, or is the seed of the stream just opened -/
+theorem step_streams (C : Cfg V Mask U) (s : Srv V Mask) (r : Req Mask U) (st' : Stream V Mask)
+    (hst : st' ∈ (step C s r).1.streams) (x : V × String) (hx : x ∈ st'.out) :
+    (∃ st, st ∈ s.streams ∧ st.name = st'.name ∧ st.mask = st'.mask ∧ x ∈ st.out) ∨
+    (x.2 = st'.name ∧ (x.1 = view C st'.mask (step C s r).1.cur ∨ x.1 = view C st'.mask s.cur)) := by
+  cases r with
+  | get n m => exact Or.inl ⟨st', hst, rfl, rfl, hx⟩
+  | update n u =>
+    simp only [step] at hst ⊢
+    cases ha : C.apply s.cur u with
+    | error c => simp only [ha] at hst; exact Or.inl ⟨st', hst, rfl, rfl, hx⟩
+    | ok w =>
+      simp only [ha] at hst ⊢
+      obtain ⟨st, hm, rfl⟩ := List.mem_map.mp hst
+      have hs := push_static C w st
+      rcases push_accounted C w st x hx with h | h
+      · exact Or.inl ⟨st, hm, hs.1.symm, hs.2.1.symm, h⟩
+      · refine Or.inr ⟨?_, Or.inl ?_⟩
+        · rw [h, hs.1]
+        · rw [h, hs.2.1]
+  | pull n m uo =>
+    simp only [step] at hst ⊢
+    rcases List.mem_append.mp hst with h | h
+    · exact Or.inl ⟨st', h, rfl, rfl, hx⟩
+    · simp at h
+      subst h
+      cases uo with
+      | true => simp [openStream] at hx
+      | false =>
+        simp [openStream] at hx
+        exact Or.inr ⟨by rw [hx]; rfl, Or.inr (by rw [hx]; rfl)⟩
+  | cancel i =>
+    simp only [step] at hst
+    obtain ⟨j, hj, rfl⟩ := List.mem_mapIdx.mp hst
+    refine Or.inl ⟨s.streams[j], List.getElem_mem _, ?_, ?_, ?_⟩
+    · split <;> rfl
+    · split <;> rfl
+    · revert hx; split <;> exact id
+
+theorem cur_mem_vals (C : Cfg V Mask U) (s : Srv V Mask) (rs : List (Req Mask U)) : s.cur ∈ vals C s rs := by
+  cases rs <;> simp [vals]
+
 end ScVerif.C14
